@@ -176,6 +176,46 @@ func (e *Env) ParamInt(k string, d int) int {
 	return d
 }
 
+// Glob matches s against a pattern in which '*' stands for any run of
+// characters (no other metacharacters).
+func Glob(pat, s string) bool {
+	for len(pat) > 0 {
+		if pat[0] == '*' {
+			for len(pat) > 0 && pat[0] == '*' {
+				pat = pat[1:]
+			}
+			if len(pat) == 0 {
+				return true
+			}
+			for i := 0; i <= len(s); i++ {
+				if Glob(pat, s[i:]) {
+					return true
+				}
+			}
+			return false
+		}
+		if len(s) == 0 || pat[0] != s[0] {
+			return false
+		}
+		pat, s = pat[1:], s[1:]
+	}
+	return len(s) == 0
+}
+
+// IsKnown reports whether a violation signature is a listed finding; it
+// returns the listing pattern that matched.
+func (e *Env) IsKnown(sig string) (string, bool) {
+	if e.Known[sig] {
+		return sig, true
+	}
+	for pat := range e.Known {
+		if strings.Contains(pat, "*") && Glob(pat, sig) {
+			return pat, true
+		}
+	}
+	return "", false
+}
+
 // TimeUp reports whether the worker's wall budget is used (never consulted
 // inside a run: only between runs, so it cannot perturb a schedule).
 func (e *Env) TimeUp() bool { return time.Since(e.Start).Seconds() > e.WallS }
